@@ -13,6 +13,8 @@ MUTABLE_TOP = [
     ["cont", [["cont", [["vec", ["cont", [["uint", 1], ["list", ["uint", 8], 5]]], 2], ["uint", 4]]], ["bool"]]],
     ["union", True, [["uint", 1], ["list", ["uint", 4], 7]]],
     ["union", False, [["uint", 1], ["cont", [["uint", 1], ["bitlist", 9]]]]],
+    ["union", True, [["uint", 2], ["uint", 2], ["list", ["uint", 1], 3], ["uint", 2]]],      # one type at several selectors
+    ["cont", [["union", False, [["list", ["uint", 1], 3], ["list", ["uint", 1], 3]]], ["uint", 1]]],
     ["list", ["union", True, [["uint", 2], ["bitvec", 9]]], 6],
     ["cont", [["union", False, [["cont", [["uint", 1]]], ["uint", 8]]], ["list", ["bitlist", 300], 4]]],
     ["list", ["list", ["cont", [["uint", 1]]], 3], 3],
@@ -356,7 +358,8 @@ def gen_history(rng, t, n_cmds, p_invalid=0.0, p_child=0.0, p_copy=0.0, top_only
                 sel = rng.randrange(0, n) if not invalid or rng.random() < 0.4 else rng.choice([n, n + 1, -1])
                 o = union_opt(ty, sel) if 0 <= sel < n else None
                 if o is None:
-                    a = ["none"] if not invalid or not (0 <= sel < n) else ["val", 1]
+                    # a value for the None option: any non-None value is invalid, also the falsy ones
+                    a = ["none"] if not invalid or not (0 <= sel < n) else ["val", rng.choice([1, 0, 0, False, [], ""])]
                 else:
                     a = gen_arg(rng, o, valid=not invalid) if not (invalid and rng.random() < 0.3) else ["none"]
                 c = ["change", vi, sel, a]
